@@ -896,6 +896,17 @@ def c19_facts(repo, sk, facts, notes):
         "size_t const close_bracket_pos = fmt_template.find_first_of('}', open_bracket_pos + 1); "
         "if (close_bracket_pos != std::string::npos) {" in t and t.count('close_bracket_pos =') == 1
         and 'close_bracket_2_pos' not in t and 'while (close_bracket_pos' not in t)
+    # the named-argument vector of a reused transit event slot (Format/NaSlot.v): resized to the number of names, keys by index
+    docs2 = run_clang('#include "quill/backend/BackendWorker.h"\n', 'BackendWorker::_populate_formatted_named_args', repo)
+    sk['c19_populate_named_args'] = method_skeleton(docs2, p, '_populate_formatted_named_args') or []
+    pn = [l.strip() for l in sk['c19_populate_named_args']]
+    def idx(s):
+        return pn.index(s) if s in pn else -1
+    i_rs = idx('EXPR transit_event->named_args->resize(arg_names.size())')
+    i_for = next((k for k, l in enumerate(pn) if l.startswith('FOR for (size_t i = 0; i < arg_names.size()')), -1)
+    facts['c19_named_args_resized'] = bool(0 <= i_rs < i_for and i_for + 1 < len(pn) and
+                                           pn[i_for + 1] == 'EXPR (*transit_event->named_args)[i].first = arg_names[i].first' and
+                                           not any('emplace_back' in l or 'insert' in l for l in pn[:i_for + 2]))
 # ===== C19 block end =====
 
 
